@@ -67,7 +67,17 @@ D2F == {<<op, s, z>> : op \in FArith, s \in D1FS, z \in FLeafS} \cup {<<op, z, s
        \cup {<<op, s, u>> : op \in {"+", "-", "*"}, s \in FSub, u \in FSub} \cup {<<"/", s, NZF(u)>> : s \in FSub, u \in {<<"v", "f">>, <<"*", <<"v", "g">>, <<"v", "h">>>>}}
        \cup {<<c, s, z>> : c \in ZCmp, s \in FSub, z \in FLeafS} \cup {<<c, z, s>> : c \in ZCmp, s \in FSub, z \in FLeafS} \cup {<<c, s, u>> : c \in {"<", "cmp"}, s \in FSub, u \in FSub}
        \cup {<<c, x, y>> : c \in ZCmp, x \in FVar, y \in FLeaf}
-Trees == IF KIND = "z" THEN D1Z \cup Un1Z \cup D2Z ELSE IF KIND = "q" THEN D1Q \cup D2Q ELSE D1F \cup Un1F \cup D2F
+(* ---- mixed mpz_class / mpq_class expressions (the __GMPZQ_DEFINE_EXPR specialisations of mpirxx.h): an INTEGER class operand next to a rational operand or
+   sub-expression.  z is an independent mpz_class object; qn and qd are q.get_num() and q.get_den(), i.e. references INTO the rational q, so that with
+   target q the integer operand is a component of the variable being assigned (seed C20c) ---- *)
+MixZ == {<<"v", "z">>, <<"v", "qn">>, <<"v", "qd">>}
+MixQSub == {<<"v", "q">>, <<"v", "r">>, <<"*", <<"v", "q">>, <<"v", "r">>>>, <<"-", <<"v", "r">>, <<"v", "q">>>>, <<"neg", <<"v", "r">>>>, <<"abs", <<"v", "q">>>>,
+            <<"+", <<"v", "r">>, <<"ui", "7">>>>, <<"/", <<"v", "q">>, <<"si", "-5">>>>, <<"<<", <<"v", "r">>, <<"ui", "3">>>>, <<"*", <<"v", "r">>, <<"v", "r">>>>}
+MixQ == {<<op, z, e>> : op \in QArith, z \in MixZ, e \in MixQSub} \cup {<<op, e, z>> : op \in QArith, z \in MixZ, e \in MixQSub}
+        \cup {<<"/", z, NZQ(e)>> : z \in MixZ, e \in MixQSub} \cup {<<"/", e, NZQ(z)>> : z \in MixZ, e \in MixQSub}
+        \cup {<<c, z, e>> : c \in {"<", "==", "cmp"}, z \in MixZ, e \in MixQSub} \cup {<<c, e, z>> : c \in {"<", "cmp"}, z \in MixZ, e \in MixQSub}
+        \cup {<<op, <<op2, z, e>>, y>> : op \in {"+", "*"}, op2 \in {"+", "-"}, z \in MixZ, e \in {<<"v", "r">>, <<"*", <<"v", "q">>, <<"v", "r">>>>}, y \in {<<"v", "q">>, <<"v", "qd">>, <<"ui", "7">>}}
+Trees == IF KIND = "z" THEN D1Z \cup Un1Z \cup D2Z ELSE IF KIND = "q" THEN D1Q \cup D2Q \cup MixQ ELSE D1F \cup Un1F \cup D2F
 ASSUME \A t \in Trees : PrintT(<<"TREE", KIND, t>>)
 ASSUME PrintT(<<"CxxExpr", KIND, Cardinality(Trees)>>)
 VARIABLE dummy
